@@ -31,7 +31,7 @@ def srank (s : St) : Nat :=
   match s.spc with
   | .off => 2 | .waiting => 1 | .cancelled => 0
   | .intT => 2 * s.ts.length + 8 | .intT2 => 2 * s.ts.length + 7 | .listLock => 2 * s.ts.length + 6
-  | .listing k => k + 2
+  | .listing k => k + 2 | .printing k => k + 2
   | .abLock => 2 * s.ts.length + 5 | .fwding k => 2 * (s.ts.length - k) + 4 | .exiting => 3
   | .tstpT => 5 | .cancLock => 4 | .cancUnlock => 3 | .stopping => 2
 
@@ -116,6 +116,8 @@ theorem rank_s {s s' : St} {a : SAct} (hx : s.exited = none) (hs : sStep s a = s
       · by_cases hc : INTR < s.now - s.last <;> simp [hc] <;> omega
       · simp
       · simp
+      · simp
+      · simp
       · by_cases hc : INTR < s.now - s.last <;> simp [hc]
     · simp at hs
   | lockT =>
@@ -138,6 +140,9 @@ theorem rank_s {s s' : St} {a : SAct} (hx : s.exited = none) (hs : sStep s a = s
     split at hs
     · simp only [Option.some.injEq] at hs; subst hs
       rename_i hw
+      simp only [rank, drank, drankOf, srank, sigCredit, hw]; simp
+    · simp only [Option.some.injEq] at hs; subst hs
+      rename_i k hw
       simp only [rank, drank, drankOf, srank, sigCredit, hw]; simp
     · split at hs <;> simp at hs; subst hs
       rename_i k hw _
